@@ -433,8 +433,17 @@ def case_consequences(**p):
       bad.append(sym.s_cmp('lt', sym.s_mul(sym.s_sub(e2, e1), dr), 0))
     case.solve('edgeworth-kernel-gives-trust[%d,%d,%d]' % (m, c_, dr), core.any_of(bad),
                assumptions=specs.holds(cons) + rel + dom + dom2, witness=dict(x=x, y=x2, k=K), timeout=tmo,
-               sig=dict(query='edgeworth', interp=p['interp']), replay=None, required=False)
+               sig=dict(query='edgeworth', interp=p['interp']), required=False,
+               inline_replay=lambda mdl, xin2=xin2, dr=dr: _edgeworth_replay(mdl, tr, xin, xin2, kvar, K, dr))
   return case
+
+
+def _edgeworth_replay(mdl, tr, xin, xin2, kvar, K, dr):
+  kv = {kvar.ref(): core.model_np(mdl, K)}
+  o1 = np.asarray(tr.tf_run(*[core.model_np(mdl, a) for a in xin], var_values=kv)[0], dtype=np.float64).reshape(2, -1)
+  o2 = np.asarray(tr.tf_run(*[core.model_np(mdl, a) for a in xin2], var_values=kv)[0], dtype=np.float64).reshape(2, -1)
+  gap = ((o2[1] - o2[0]) - (o1[1] - o1[0])) * dr
+  return dict(reproduced=bool(np.min(gap) < -1e-4), detail=dict(min_gap=float(np.min(gap))))
 
 
 def replay(r):
